@@ -383,7 +383,7 @@ class Indentation(afmformats.AFMForceDistance):
         elif (self._rating is None or
               self._rating[0] != curhash or
               self._rating[1] != regressor or
-              self._rating[2] != training_set or
+              _training_sets_differ(self._rating[2], training_set) or
               self._rating[3] != names or
               self._rating[4] != lda):
             # Perform rating
@@ -392,9 +392,20 @@ class Indentation(afmformats.AFMForceDistance):
                               names=names,
                               lda=lda)
             rt = rater.rate(datasets=self)[0]
-            self._rating = (curhash, regressor, training_set,
+            self._rating = (curhash, regressor, copy.deepcopy(training_set),
                             copy.deepcopy(names), lda, rt)
         else:
             # Use cached rating
             rt = self._rating[-1]
         return rt
+
+
+def _training_sets_differ(ts1, ts2):
+    """`!=` for training sets (label, path, or tuple of arrays `(X, y)`)"""
+    if isinstance(ts1, tuple) and isinstance(ts2, tuple):
+        return (len(ts1) != len(ts2)
+                or not all(np.array_equal(a, b) for a, b in zip(ts1, ts2)))
+    elif isinstance(ts1, tuple) or isinstance(ts2, tuple):
+        return True
+    else:
+        return ts1 != ts2
